@@ -330,7 +330,7 @@ def _table(A: str, B: str, AN: str) -> dict[str, list[str]]:
                            "    return enum.IntEnum", "r1(1).nope", "r2(1)().nope", "r4(0).nope"],
         "return_metaclass": ["def m1(c):", "    if c:", "        return int", "    return type", "def m2(c):", "    if c:", "        return HelperCls", "    return enum.EnumMeta", "m1(1).nope"],
         # ---------------------------------------------------------------- open findings, confined to kinds of their own
-        # (Totality.tla Dev_VersionInfoCompare / Dev_AliasKeyUnhashable / Dev_ParamSpecSubstitution)
+        # (version_info_compare: repaired by 55a5b7d, kept as regression generator; paramspec_alias: Totality.tla Dev_ParamSpecSubstitution)
         "version_info_compare": [f"if sys.version_info > {A}:", "    pass", f"v1 = sys.version_info < {A}", f"v2 = sys.version_info >= (3, {A})", f"v3 = sys.version_info <= ({A},)",
                                  f"v4 = sys.version_info == {A}", f"v5 = sys.version_info != {A}", f"v6 = {A} < sys.version_info", f"v7 = sys.version_info[0] > {A}",
                                  f"v8 = sys.version_info[:2] >= {A}", f"v9 = sys.platform == {A}", f"v10 = sys.platform > {A}", f"v11 = sys.platform.startswith({A})",
